@@ -21,7 +21,7 @@ Proof.
   - repeat constructor; discriminate.
   - reflexivity.
   - repeat constructor; cbn; try lia; repeat constructor; discriminate.
-  - unfold not_bundle_addr. cbn. discriminate.
+  - unfold not_bundle_addr, bundle7. discriminate.
 Qed.
 
 (* D5b: a blob length of 0xfffffffc wraps the 32-bit position: the pinned
